@@ -217,3 +217,10 @@ func (w *World) OpenAllGates() {
 	}
 	w.mu.Unlock()
 }
+
+// DialCount returns the number of Dialer invocations so far.
+func (w *World) DialCount() int {
+	w.mu.Lock()
+	defer w.mu.Unlock()
+	return w.Dials
+}
